@@ -27,6 +27,7 @@ def mini_terminal(s: str):
     to ST; ESC restarts a cut CSI; C0 inside esc/csi executes."""
     st, params = "ground", ""
     vis, sgr_default = True, True
+    apc, pending = None, False  # content of the APC string being read; a kitty chunked transmission is open
     for ch in s:
         if st == "ground":
             if ch == ESC:
@@ -40,6 +41,7 @@ def mini_terminal(s: str):
                 st, params = "csi", ""
             elif ch in "_]P^X":
                 st = "str"
+                apc = "" if ch == "_" else None
             else:
                 st = "ground"
         elif st == "csi":
@@ -58,8 +60,25 @@ def mini_terminal(s: str):
         elif st == "str":
             if ch == ESC:
                 st = "strEsc"
+            elif apc is not None:
+                apc += ch
         elif st == "strEsc":
-            st = "ground" if ch == "\\" else ("strEsc" if ch == ESC else "str")
+            if ch == "\\":
+                st = "ground"
+                if apc is not None and apc.startswith("G"):
+                    # a kitty graphics command as the terminal received it (possibly with a truncated payload):
+                    # `m=1` = more chunks follow, `m=0` = last chunk
+                    keys = dict(kv.split("=", 1) for kv in apc[1:].split(";", 1)[0].split(",") if "=" in kv)
+                    if keys.get("m") in ("0", "1"):
+                        pending = keys["m"] == "1"
+                apc = None
+            elif ch == ESC:
+                st = "strEsc"
+            else:
+                st = "str"
+                if apc is not None:
+                    apc += ESC + ch
+    mini_terminal.pending = pending
     return st, vis, sgr_default
 
 
@@ -92,6 +111,19 @@ class C07(Property):
             d = c06.random_config(rng, tier)
             d["nframes"] = rng.choice([1, 2, 2, 3] + ([4] if big else []))
             d["loops"] = rng.choice([1, 1, 2])
+            nconf = getattr(self, "_nconf", 0)
+            self._nconf = nconf + 1
+            if nconf % 8 == 1:
+                # old-API kitty animation whose frames differ in payload size: at least one frame's transmission
+                # spans several chunks (m=1 … m=0), the LAST frame fits in one; cached, >= 2 passes, so that a
+                # chunked frame is written from the cache after an unchunked one was the last to be rendered
+                d.update(api="old", style="kitty", method="whole", term=rng.choice(["kitty", "konsole"]), mix=False,
+                         animate=True, tty=True, cache=True, loops=rng.choice([2, 2, 3]), cell=[10, 20], px=80,
+                         cols=8, lines=4, by_width=rng.random() < 0.5)
+                d["kitty_version"] = rng.choice([[0, 25, 0], [0, 30, 1]]) if d["term"] == "kitty" else []
+                d["nframes"] = rng.choice([2, 3])
+                d["frame_kinds"] = (["noise", "flat"] if d["nframes"] == 2 else
+                                    rng.choice([["noise", "noise", "flat"], ["flat", "noise", "flat"], ["noise", "flat", "flat"]]))
             d["check_size"] = True
             d["allow_scroll"] = False
             if d["api"] == "new":
@@ -117,10 +149,17 @@ class C07(Property):
             ks = list(range(nbody))
             if not big and nbody > 16:
                 ks = sorted(set(ks[:6] + ks[-5:] + rng.sample(ks, 5)))
+                if d.get("frame_kinds"):  # the frame writes of the later (cached) passes
+                    later = [k for k in range(nbody // 2, nbody) if log[k] == "write"]
+                    ks = sorted(set(ks[:3] + rng.sample(later, min(5, len(later)))))
             for k in ks:
                 offs = [0]
                 if log[k] == "write":
-                    offs = [0, 2, rng.randrange(0, 60), 10**6]
+                    # 0 = nothing, 2 / random = inside a token, -1 = all but the last character,
+                    # 10**6 = everything delivered and THEN the exception (Ctrl-C right after the write returned)
+                    offs = [0, 2, rng.randrange(0, 60), -1, 10**6]
+                    if d.get("frame_kinds"):
+                        offs = [0, -1, 10**6, rng.randrange(100, 4000), rng.randrange(4200, 9000)]
                     if big:
                         offs += [1, rng.randrange(0, 4000)] + [rng.randrange(0, 200) for _ in range(3)]
                 elif log[k] == "tcset":
@@ -140,7 +179,10 @@ class C07(Property):
         d["_outcome"] = r.outcome
         d["_attrs"] = r.ft.summary() if r.ft is not None else "7,1"
         d["_finalized"], d["_seek_ok"], d["_size_ok"] = r.finalized, r.seek_ok, r.size_ok
-        d["_fired"] = list(c06.INJ.fired[::2]) if c06.INJ.fired else None
+        fired = c06.INJ.fired
+        d["_fired"] = list(fired[::2]) if fired else None
+        d["_fired_partial_string"] = bool(fired and fired[1] is not None and fired[2] < len(fired[1])
+                                          and (ESC + "_" in fired[1] or ESC + "]" in fired[1]))
         d["_log"] = r.log
         return res
 
@@ -155,12 +197,21 @@ class C07(Property):
         st, vis, sgr_default = mini_terminal(d["_stream"])
         # the new API's base class has no graphics renderable and its `_handle_interrupted_draw_` does nothing:
         # terminating a cut graphics command is the subclass's business, so text frames only there
+        pending = mini_terminal.pending
         stream_claims = d["api"] == "old" or (d["style"] == "block" and not d.get("clear"))
         if not stream_claims:
-            st, vis = "ground", True
+            # … but whatever the frames are, a cut that is not inside a graphics write (HIDE_CURSOR, cursor moves, a
+            # flush, a sleep, a write delivered completely) must leave the cursor visible
+            cut_in_string = bool(fired) and fired[0] == "write" and d.get("_fired_partial_string", False)
+            if cut_in_string or st in ("str", "strEsc"):
+                vis = True
+            st, pending = "ground", False
         if st in ("str", "strEsc") or (d["api"] == "old" and st != "ground"):
             return Failure(f"parser/{where}/{fired[0] if fired else ''}",
                            f"the terminal is left inside an unterminated control sequence ({st}); {at}")
+        if pending:
+            return Failure(f"chunked/{where}/{fired[0] if fired else ''}",
+                           f"a kitty chunked transmission (m=1) is left open: no m=0 command follows the cut; {at}")
         if not vis:
             return Failure(f"hidden/{where}/{fired[0] if fired else ''}/k{min(d['plan']['k'], 2)}",
                            f"the cursor is left hidden; {at}")
